@@ -250,6 +250,7 @@ type Server struct {
 	// Shutdown handling
 	lock     sync.RWMutex
 	started  bool
+	serving  bool // a serve loop of this Server has not finished (it may still be draining after a Shutdown)
 	shutdown chan struct{}
 	conns    map[net.Conn]struct{}
 
@@ -316,6 +317,11 @@ func (srv *Server) ListenAndServe() error {
 	if srv.started {
 		return &Error{err: "server already started"}
 	}
+	if srv.serving {
+		// The run that was shut down has not drained yet: it still uses srv.shutdown
+		// and srv.conns, which init would replace under it.
+		return &Error{err: "server still shutting down"}
+	}
 
 	addr := srv.Addr
 	if addr == "" {
@@ -332,6 +338,7 @@ func (srv *Server) ListenAndServe() error {
 		}
 		srv.Listener = l
 		srv.started = true
+		srv.serving = true
 		unlock()
 		return srv.serveTCP(l)
 	case "tcp-tls", "tcp4-tls", "tcp6-tls":
@@ -346,6 +353,7 @@ func (srv *Server) ListenAndServe() error {
 		l = tls.NewListener(l, srv.TLSConfig)
 		srv.Listener = l
 		srv.started = true
+		srv.serving = true
 		unlock()
 		return srv.serveTCP(l)
 	case "udp", "udp4", "udp6":
@@ -360,6 +368,7 @@ func (srv *Server) ListenAndServe() error {
 		}
 		srv.PacketConn = l
 		srv.started = true
+		srv.serving = true
 		unlock()
 		return srv.serveUDP(u)
 	}
@@ -376,6 +385,11 @@ func (srv *Server) ActivateAndServe() error {
 	if srv.started {
 		return &Error{err: "server already started"}
 	}
+	if srv.serving {
+		// The run that was shut down has not drained yet: it still uses srv.shutdown
+		// and srv.conns, which init would replace under it.
+		return &Error{err: "server still shutting down"}
+	}
 
 	srv.init()
 
@@ -388,11 +402,13 @@ func (srv *Server) ActivateAndServe() error {
 			}
 		}
 		srv.started = true
+		srv.serving = true
 		unlock()
 		return srv.serveUDP(srv.PacketConn)
 	}
 	if srv.Listener != nil {
 		srv.started = true
+		srv.serving = true
 		unlock()
 		return srv.serveTCP(srv.Listener)
 	}
@@ -431,6 +447,9 @@ func (srv *Server) ShutdownContext(ctx context.Context) error {
 		rw.SetReadDeadline(aLongTimeAgo) // Unblock reads
 	}
 
+	// What belongs to the run being shut down: a later start replaces the fields.
+	shutdown := srv.shutdown
+	packetConn := srv.PacketConn
 	srv.lock.Unlock()
 
 	if testShutdownNotify != nil {
@@ -439,13 +458,13 @@ func (srv *Server) ShutdownContext(ctx context.Context) error {
 
 	var ctxErr error
 	select {
-	case <-srv.shutdown:
+	case <-shutdown:
 	case <-ctx.Done():
 		ctxErr = ctx.Err()
 	}
 
-	if srv.PacketConn != nil {
-		srv.PacketConn.Close()
+	if packetConn != nil {
+		packetConn.Close()
 	}
 
 	return ctxErr
@@ -472,7 +491,10 @@ func (srv *Server) serveTCP(l net.Listener) error {
 	var wg sync.WaitGroup
 	defer func() {
 		wg.Wait()
+		srv.lock.Lock()
+		srv.serving = false
 		close(srv.shutdown)
+		srv.lock.Unlock()
 	}()
 
 	for srv.isStarted() {
@@ -514,8 +536,9 @@ func (srv *Server) serveUDP(l net.PacketConn) error {
 		// loop that does not exist.
 		srv.lock.Lock()
 		srv.started = false
-		srv.lock.Unlock()
+		srv.serving = false
 		close(srv.shutdown)
+		srv.lock.Unlock()
 		return &Error{err: "PacketConnReader was not implemented on Reader returned from DecorateReader but is required for net.PacketConn"}
 	}
 
@@ -526,7 +549,10 @@ func (srv *Server) serveUDP(l net.PacketConn) error {
 	var wg sync.WaitGroup
 	defer func() {
 		wg.Wait()
+		srv.lock.Lock()
+		srv.serving = false
 		close(srv.shutdown)
+		srv.lock.Unlock()
 	}()
 
 	rtimeout := srv.getReadTimeout()
